@@ -45,7 +45,7 @@ def series_data(entry, seed, container="series"):
         y[17] = np.nan
         y[11] = 90.0      # an outlier
     idx = pd.RangeIndex(3, 3 + n)
-    if container == "frame" and entry.get("missing"):
+    if (container == "frame" and entry.get("missing")) or entry.get("frame"):
         return pd.DataFrame({"a": y, "b": y[::-1].copy()}, index=idx)
     return pd.Series(y, index=idx)
 
